@@ -29,6 +29,12 @@ Emit ==
                                   [bt |-> "above=", r |-> <<0, 2>>, table |-> TableJ(AveragedTable(Ds, X, m, axis, "above=", <<R(0), R(2)>>, Legend))]>>
                            ELSE <<>>,
                  thr |-> IF axis = "threshold" THEN [bt \in {"below", "below=", "above="} |-> TableJ(ThresholdTable(X, m, bt, ThsGiven, Legend))] ELSE [bt \in {} |-> <<>>],
+                 cond |-> IF axis = "no" /\ m \in {"mae", "bias", "rmse"}
+                          THEN <<[field |-> "obs", bt |-> "within", r |-> <<0, 2, 3>>, table |-> TableJ(ConditionalTable(X, m, "obs", "within", Ths, Legend))],
+                                 [field |-> "fcst", bt |-> "within=", r |-> <<0, 2, 3>>, table |-> TableJ(ConditionalTable(X, m, "fcst", "within=", Ths, Legend))],
+                                 [field |-> "obs", bt |-> "above=", r |-> <<0, 2, 3>>, table |-> TableJ(ConditionalTable(X, m, "obs", "above=", Ths, Legend))],
+                                 [field |-> "fcst", bt |-> "below", r |-> <<0, 2, 3>>, table |-> TableJ(ConditionalTable(X, m, "fcst", "below", Ths, Legend))]>>
+                          ELSE <<>>,
                  acc |-> IF axis = "threshold" THEN <<>> ELSE TableJ(ScoreTable(Ds, X, m, axis, Cfg, TRUE, Legend))]))
 Init == /\ gen \in {x \in Universe(0) : Usable(x)} /\ m \in Menu /\ axis \in AxisMenu /\ phase = "case"
         /\ (axis = "threshold" => m \in {"ets", "hit", "n"})
@@ -36,5 +42,6 @@ Evaluate == phase = "case" /\ phase' = "emitted" /\ UNCHANGED <<gen, m, axis>> /
 Next == Evaluate
 Spec == Init /\ [][Next]_vars
 InvShape == axis = "threshold" \/ TableShape(Ds, Context(Ds, gen.opt), m, axis, Cfg, FALSE, Legend)
+InvCondDisjoint == LET X == Context(Ds, gen.opt) IN \A i \in 1..X.n : CondRowsDisjoint(X, i, "obs", Ths) /\ CondRowsDisjoint(X, i, "fcst", Ths)
 InvAcc == axis = "threshold" \/ AccIsPrefixSum(Ds, Context(Ds, gen.opt), m, axis, Cfg, Legend)
 =============================================================================
